@@ -19,6 +19,7 @@ inductive Val
   | str (s : Str)
   | int (i : Int)
   | bool (b : Bool)
+  | elem (u : Str)   -- a child *element* (what a Mapping element's `[key]` yields); `str()` is its `.u`
   deriving DecidableEq, Repr, Inhabited
 
 /-- exception classes the real code can let escape -/
@@ -48,6 +49,7 @@ def pyStr : Val → Str
   | .int i => intStr i
   | .bool true => "True".toList
   | .bool false => "False".toList
+  | .elem u => u
 
 /-! ### `int(n)` on the resolved count (ASCII fragment of CPython's `int(str)`) -/
 
@@ -88,6 +90,7 @@ def coerceCount : Val → Except Raise Val
   | .int i => .ok (.int i)
   | .bool b => .ok (.int (if b then 1 else 0))
   | .none => .ok .none
+  | .elem u => .ok (.elem u)                 -- `int(element)` is a TypeError too
   | .str s => match parseInt s with
     | some i => .ok (.int i)
     | none => .error .valueError
@@ -153,15 +156,17 @@ inductive PState
   | conv (key : Str)                     -- saw the closing `)`, expecting the conversion
   deriving Repr
 
-def parseGo : PState → List Seg → List Char → Except Raise (List Seg)
-  | .text, out, [] => .ok out.reverse
+/-- one left-to-right scan: the segments recognised so far and, if the scan stopped, why.
+    (Python formats while it scans, so a failing lookup *before* a malformed tail wins.) -/
+def parseGo : PState → List Seg → List Char → List Seg × Option Raise
+  | .text, out, [] => (out.reverse, none)
   | .text, out, c :: cs => if c = '%' then parseGo .pct out cs else parseGo .text (.ch c :: out) cs
-  | .pct, _, [] => .error .valueError                        -- "incomplete format"
+  | .pct, out, [] => (out.reverse, some .valueError)               -- "incomplete format"
   | .pct, out, c :: cs =>
     if c = '%' then parseGo .text (.ch '%' :: out) cs
     else if c = '(' then parseGo (.key 0 []) out cs
-    else .error .unsupported                                 -- `%s`, `%d`, flags …
-  | .key _ _, _, [] => .error .valueError                    -- "incomplete format key"
+    else (out.reverse, some .unsupported)                          -- `%s`, `%d`, flags …
+  | .key _ _, out, [] => (out.reverse, some .valueError)           -- "incomplete format key"
   | .key d acc, out, c :: cs =>
     if c = ')' then
       (match d with
@@ -169,12 +174,18 @@ def parseGo : PState → List Seg → List Char → Except Raise (List Seg)
        | d' + 1 => parseGo (.key d' (c :: acc)) out cs)
     else if c = '(' then parseGo (.key (d + 1) (c :: acc)) out cs
     else parseGo (.key d (c :: acc)) out cs
-  | .conv _, _, [] => .error .valueError                     -- "incomplete format"
+  | .conv _, out, [] => (out.reverse, some .valueError)            -- "incomplete format"
   | .conv k, out, c :: cs =>
     if c = 's' then parseGo .text (.ph k :: out) cs
-    else .error .unsupported
+    else (out.reverse, some .unsupported)
 
-def parseFmt (s : Str) : Except Raise (List Seg) := parseGo .text [] s
+def scanFmt (s : Str) : List Seg × Option Raise := parseGo .text [] s
+
+/-- the template as segments; an error when it is malformed or outside the fragment -/
+def parseFmt (s : Str) : Except Raise (List Seg) :=
+  match scanFmt s with
+  | (segs, none) => .ok segs
+  | (_, some e) => .error e
 
 def placeholdersOf : List Seg → List Str
   | [] => []
@@ -198,9 +209,13 @@ def render (m : Str → Except Raise Val) : List Seg → Except Raise Str
 
 /-- `message % format_map` -/
 def pyFormat (tmpl : Str) (m : Str → Except Raise Val) : Except Raise Str :=
-  match parseFmt tmpl with
-  | .error e => .error e
-  | .ok segs => render m segs
+  match scanFmt tmpl with
+  | (segs, err) =>
+    match render m segs with
+    | .error e => .error e
+    | .ok out => match err with
+      | none => .ok out
+      | some e => .error e
 
 /-! ### `find_transformer` -/
 
@@ -322,9 +337,11 @@ def Msg.truthy : Msg → Bool
   | .plain s => !s.isEmpty
   | .plural _ _ _ => true
 
-/-- `note_error(element, state, key, **info)` with the message already fetched: new error list -/
-def noteError (e : Env) (errors : List Str) (m : Msg) : Except Raise (List Str) :=
-  if m.truthy then do
+/-- `note_error(element, state, key, **info)` with the message already fetched (a callable
+    message object is always truthy): new error list -/
+def noteError (e : Env) (errors : List Str) (m : Msg) (callable : Bool := false) :
+    Except Raise (List Str) :=
+  if callable || m.truthy then do
     let s ← expandMessage e m
     pure (addError errors s)
   else .ok errors
